@@ -68,6 +68,7 @@ class Session:
         self.violations: list[dict] = []
         self._viol_keys = collections.Counter()
         self._stored_keys = collections.Counter()
+        self.facet_counts = collections.Counter()  # (monitor, key) -> oracle decisions taken, held or not
         self.oracle_errors: list[str] = []
         self.case_errors: list[str] = []
         self.sig_counts = collections.Counter()  # class signature -> evaluations
@@ -104,6 +105,7 @@ class Session:
         """
         m = self.mon(monitor)
         m.in_scope += 1
+        self.facet_counts[(monitor, key if key is not None else (what or "-"))] += 1
         if sig is not None:
             self.sig_counts[sig] += 1
         if ok:
@@ -230,4 +232,5 @@ class Session:
             "samples": self.samples,
             "events_tail": list(self.events),
             "notes": dict(self.notes),
+            "facet_counts": {f"{a}|{b}": n for (a, b), n in self.facet_counts.items()},
         }
